@@ -320,6 +320,27 @@ func RunCheck(id, tier, repo string, seed int, updateBaseline, quiet, writeEvide
 	defer os.RemoveAll(dir)
 	solveStart := time.Now()
 	results := SolveAll(units, dir, DefaultSolvers(tmo), 12, allSolvers)
+	// Second chance for obligations no solver answered in time: a time-out is not a counterexample, and on a loaded machine
+	// obligations that hold can exceed the limit. Each is solved again on its own (nothing else running) with four times the
+	// limit; only what is still unanswered then counts as failed.
+	var retried []string
+	for i := range results {
+		r := &results[i]
+		if r.OK || r.Ob.Expect == "sat" || (r.Res.Status != "timeout" && r.Res.Status != "unknown") {
+			continue
+		}
+		u2 := *r.U
+		u2.Obls = []*Obligation{r.Ob}
+		again := SolveAll([]*Unit{&u2}, dir, DefaultSolvers(tmo*4), 4, allSolvers)
+		if len(again) == 1 {
+			again[0].U = r.U
+			again[0].Seconds += r.Seconds
+			if again[0].OK {
+				retried = append(retried, r.Ob.Name)
+			}
+			*r = again[0]
+		}
+	}
 	solveWall := time.Since(solveStart).Seconds()
 
 	// baseline and known findings
@@ -643,6 +664,8 @@ func RunCheck(id, tier, repo string, seed int, updateBaseline, quiet, writeEvide
 			"smt_bytes":               smtBytes,
 			"discharged_by_solver":    bySolver,
 			"discharged_by_focused_query": focused,
+			"discharged_only_with_the_long_time_limit": retried,
+			"slowest_obligations":     slowest(results, 5),
 			"vacuity_guards":          countVacuity(results),
 			"vacuity_failed":          vacuityBad,
 			"vacuity_inconclusive":    vacuityOpen,
@@ -966,4 +989,25 @@ func buildReplay(eng *Engine, id string, r ObResult, regression bool, outDir, re
 	// is still run: history templates drive a fixed scenario and need no model (one that does simply does not reproduce)
 	runReplayTemplate(rf)
 	return rf
+}
+
+// slowest: the n obligations with the largest summed solver time of their parts ("name: seconds")
+func slowest(results []ObResult, n int) []string {
+	type ns struct {
+		name string
+		s    float64
+	}
+	var l []ns
+	for _, r := range results {
+		if r.Ob.Expect == "sat" {
+			continue
+		}
+		l = append(l, ns{r.Ob.Name, r.Seconds})
+	}
+	sort.Slice(l, func(i, j int) bool { return l[i].s > l[j].s })
+	var out []string
+	for i := 0; i < len(l) && i < n; i++ {
+		out = append(out, fmt.Sprintf("%s: %.1fs", l[i].name, l[i].s))
+	}
+	return out
 }
